@@ -153,7 +153,7 @@ pub fn roundtrip_col(rt: &tokio::runtime::Runtime, cols: Vec<ArrayRef>, version:
     });
     match r {
         Ok(Ok(())) => Ok(()),
-        Ok(Err(e)) => Err(format!("{} [{}]", e.chars().take(160).collect::<String>(), panics.iter().map(|p| p.chars().take(110).collect::<String>()).collect::<Vec<_>>().join(" | "))),
+        Ok(Err(e)) => Err(format!("{} [{}]", e.chars().take(600).collect::<String>(), panics.iter().map(|p| p.chars().take(110).collect::<String>()).collect::<Vec<_>>().join(" | "))),
         Err(p) => Err(format!("PANIC {}", p.chars().take(200).collect::<String>())),
     }
 }
@@ -165,10 +165,60 @@ pub fn shapes(args: &hxlib::util::Args) -> i32 {
     for st in all_stacks(depth) {
         for leaf_nulls in [false, true] {
             for version in [LanceFileVersion::V2_0, LanceFileVersion::V2_1, LanceFileVersion::V2_2] {
-                let cols: Vec<ArrayRef> = (0..pages).map(|p| gen_stack(&st, leaf_nulls, 8, p)).collect();
+                // mode "2": two pages with the same features; mode "3": the second page has no null / empty anywhere
+                let plain: Vec<L> = st.iter().map(|l| match l { L::S(_) => L::S(false), L::Li(_, _) => L::Li(false, false), L::F(_) => L::F(false) }).collect();
+                let cols: Vec<ArrayRef> = if pages == 3 { vec![gen_stack(&st, leaf_nulls, 8, 0), gen_stack(&plain, false, 8, 1)] } else { (0..pages).map(|p| gen_stack(&st, leaf_nulls, 8, p)).collect() };
                 let opts = if pages > 1 { FileWriterOptions { data_cache_bytes: Some(0), ..Default::default() } } else { Default::default() };
                 let r = roundtrip_col(&rt, cols, version, vec![1, 2, 5], opts);
                 println!("{version}\t{}\t{}", stack_name(&st, leaf_nulls), match r { Ok(()) => "ok".to_string(), Err(e) => e.replace('\n', " ") });
+            }
+        }
+    }
+    0
+}
+
+/// probe-fsl: fixed-size lists whose ITEMS are null here and there (item type x dimension x nesting x pages)
+pub fn fsl(_args: &hxlib::util::Args) -> i32 {
+    use arrow_buffer::{NullBuffer, OffsetBuffer};
+    let rt = runtime();
+    for version in [LanceFileVersion::V2_0, LanceFileVersion::V2_1, LanceFileVersion::V2_2] {
+        for ty in ["u8", "i32", "f64"] {
+            for dim in [1usize, 2, 3] {
+                for item_nulls in [false, true] {
+                    for fsl_nulls in [false, true] {
+                        for in_list in [false, true] {
+                            for pages in [1usize, 2] {
+                                let mk = |salt: usize| -> ArrayRef {
+                                    let rows = 40usize;
+                                    let nlists = if in_list { rows } else { 0 };
+                                    let lens: Vec<usize> = (0..nlists).map(|i| if i % 5 == 2 { 0 } else { 1 + i % 3 }).collect();
+                                    let n = if in_list { lens.iter().sum() } else { rows };
+                                    let m = n * dim;
+                                    let valid = |i: usize| !(item_nulls && (i + salt) % 3 == 1);
+                                    let items: ArrayRef = match ty {
+                                        "u8" => Arc::new(UInt8Array::from((0..m).map(|i| if valid(i) { Some(if std::env::var("C25_CONST").is_ok() { 144u8 } else { (i * 3 + salt) as u8 }) } else { None }).collect::<Vec<_>>())),
+                                        "i32" => Arc::new(Int32Array::from((0..m).map(|i| if valid(i) { Some(if std::env::var("C25_CONST").is_ok() { 144i32 } else { (i * 3 + salt) as i32 }) } else { None }).collect::<Vec<_>>())),
+                                        _ => Arc::new(Float64Array::from((0..m).map(|i| if valid(i) { Some((i * 3 + salt) as f64) } else { None }).collect::<Vec<_>>())),
+                                    };
+                                    let f = Arc::new(Field::new("item", items.data_type().clone(), true));
+                                    let nb = if fsl_nulls { Some(NullBuffer::from((0..n).map(|i| i % 4 != 2).collect::<Vec<bool>>())) } else { None };
+                                    let fsl: ArrayRef = Arc::new(FixedSizeListArray::new(f, dim as i32, items, nb));
+                                    if in_list {
+                                        let lf = Arc::new(Field::new("item", fsl.data_type().clone(), true));
+                                        let lnb = Some(NullBuffer::from((0..nlists).map(|i| i % 7 != 3).collect::<Vec<bool>>()));
+                                        Arc::new(ListArray::new(lf, OffsetBuffer::<i32>::from_lengths(lens), fsl, lnb))
+                                    } else {
+                                        fsl
+                                    }
+                                };
+                                let cols: Vec<ArrayRef> = (0..pages).map(mk).collect();
+                                let opts = if pages > 1 { FileWriterOptions { data_cache_bytes: Some(0), ..Default::default() } } else { Default::default() };
+                                let r = roundtrip_col(&rt, cols, version, vec![1, 2, 5], opts);
+                                println!("{version}\t{ty} dim={dim} item_nulls={item_nulls} fsl_nulls={fsl_nulls} in_list={in_list} pages={pages}\t{}", match r { Ok(()) => "ok".to_string(), Err(e) => e.replace('\n', " ") });
+                            }
+                        }
+                    }
+                }
             }
         }
     }
